@@ -95,6 +95,31 @@ func universe(tier string) []*ref.Schema {
 	}
 	// an empty record and records with empty name parts
 	u = append(u, &ref.Schema{Type: "record", Name: "Empty"})
+	// named types identified by FULL name: the same short name in different namespaces, side by side in one union
+	addr := func(ns string) *ref.Schema {
+		return &ref.Schema{Type: "record", Name: "Address", Namespace: ns, Fields: []ref.Field{{Name: "line", Type: ref.Prim("string")}}}
+	}
+	u = append(u, ref.Union(ref.Prim("null"), addr("v1"), addr("v2")),
+		ref.Union(&ref.Schema{Type: "fixed", Name: "Digest", Namespace: "a.b", Size: 4}, &ref.Schema{Type: "enum", Name: "Digest", Namespace: "c", Symbols: []string{"X"}}, ref.Prim("long")))
+	// deep nesting ("nested to any depth"): nullable repeated records, 6 and 16 levels; arrays and maps 40 and 70 deep
+	for _, d := range []int{6, 16} {
+		x := ref.Prim("string")
+		for i := 0; i < d; i++ {
+			x = &ref.Schema{Type: "record", Name: fmt.Sprintf("Lvl%d_%d", d, i), Fields: []ref.Field{{Name: "id", Type: ref.Prim("long")}, {Name: "kids", Type: ref.Union(ref.Prim("null"), ref.Array(x))}}}
+		}
+		u = append(u, x)
+	}
+	for _, d := range []int{40, 70} {
+		x := ref.Prim("long")
+		for i := 0; i < d; i++ {
+			if i%2 == 0 {
+				x = ref.Array(x)
+			} else {
+				x = ref.Map(x)
+			}
+		}
+		u = append(u, x)
+	}
 	memoU[tier] = u
 	return u
 }
@@ -537,7 +562,7 @@ func init() {
 			if tier == "thorough" {
 				d += " plus depth 3 over a 6-leaf alphabet"
 			}
-			return "every reference schema AST of " + d + " under constructors {array, map, record(1 field), record(2 fields, namespace), record(3 fields), union [X], [null,X], [X,null], [null,X,boolean,double]}; each rendered under 24 key orderings (every permutation for objects with <=4 keys, rotations/reversals beyond) × 3 whitespace layouts, and in 6 renderings with JSON string escapes (one character of every string, keys included, as \\uXXXX; optionally '/' as \\/), and with each of 18 extra attributes (doc, default null/object, aliases, order, precision, scale, unknown object, unknown array, and 9 look-alikes of supported attributes that differ only in case or punctuation: Size, Name, NAMESPACE, Items, Values, logical_type, logical-type, Symbols, Type) inserted at each schema object and each field object; SchemaFromString result compared structurally with the expected avro.Schema; Marshal output checked with encoding/json, re-parsed by the reference parser and by the library; after every document the caller-visible result is overwritten in place (every reachable string, slice element and size) and the same document parsed again, which must again equal the document; one rendering per AST and every look-alike-attribute document (plus one slot of every other extra) is also stored as avro.schema of a container-file header and read back with FileSchema, same oracle; malformed documents = every truncation and every structural-token deletion/duplication of the small documents, oracle json.Valid, through SchemaFromString and through a file header read with FileSchema; non-trivial = a distinct document that reached the comparison"
+			return "every reference schema AST of " + d + " under constructors {array, map, record(1 field), record(2 fields, namespace), record(3 fields), union [X], [null,X], [X,null], [null,X,boolean,double]}; each rendered under 24 key orderings (every permutation for objects with <=4 keys, rotations/reversals beyond) × 3 whitespace layouts, and in 6 renderings with JSON string escapes (one character of every string, keys included, as \\uXXXX; optionally '/' as \\/), and with each of 18 extra attributes (doc, default null/object, aliases, order, precision, scale, unknown object, unknown array, and 9 look-alikes of supported attributes that differ only in case or punctuation: Size, Name, NAMESPACE, Items, Values, logical_type, logical-type, Symbols, Type) inserted at each schema object and each field object; SchemaFromString result compared structurally with the expected avro.Schema; Marshal output checked with encoding/json, re-parsed by the reference parser and by the library; after every document the caller-visible result is overwritten in place (every reachable string, slice element and size) and the same document parsed again, which must again equal the document; one rendering per AST and every look-alike-attribute document (plus one slot of every other extra) is also stored as avro.schema of a container-file header and read back with FileSchema, same oracle; malformed documents = every truncation and every structural-token deletion/duplication of the small documents, oracle json.Valid, through SchemaFromString and through a file header read with FileSchema; plus unions of named types that share a short name in different namespaces, and deep documents (nullable repeated records 6 and 16 levels deep, arrays/maps 40 and 70 deep); non-trivial = a distinct document that reached the comparison"
 		},
 		Assumptions: []string{
 			"a nil Object and an all-zero Object, nil and empty slices are identified (rendering details, not structure)",
